@@ -87,6 +87,19 @@ Theorem C14_operations_are_single_critical_sections :
   forallb (fun x => single_section (snd (fst x)) (snd x)) atomic_ops = true.
 Proof. exact atomic_ops_single_section. Qed.
 
+(* single_section alone does not tie the model to the locking (zero sections and the wrong mode pass it).  The tie is the
+   PINNED locking table of translate/skeletons against the extracted skeletons: every method of the pool, the sender list
+   (and the block cache, certificate pool, emitter, subscription, staged store) either takes its own lock exactly once on
+   every path in the pinned mode - W for Add, Remove/remove and the list operations, R for Get, GetAll, GetProcessable and
+   reorg's spawn section -, or is pinned as a helper that never takes it (runs under the caller's lock), or is a listed
+   wrapper; a method missing from the table aborts the translation.  (checker decision on translator output) *)
+Theorem C14_methods_lock_as_pinned : forallb (fun x => snd x) locking_table = true.
+Proof. exact locking_table_ok. Qed.
+(* pkg/engine builds the pool configuration field by field from the equally named configuration fields *)
+Theorem C14_engine_wires_pool_config_field_by_field :
+  andb (Nat.leb 5 (List.length pool_config_wiring)) (forallb (fun p => String.eqb (fst p) (snd p)) pool_config_wiring) = true.
+Proof. exact pool_config_wiring_ok. Qed.
+
 (* the pre-fix shape of Add (Lock, then RLock of the same mutex in evictUnprocessable) is a reachable deadlock *)
 Theorem C14_add_self_deadlock_refuted : exists c, reachable (init [add_unsafe]) c /\ stuck c.
 Proof. exact rlock_under_lock_reachable_stuck. Qed.
